@@ -32,6 +32,15 @@ def joinTokens (l : Line) : List Char := Femio.Text.joinBlank l
 /-- file text: every line terminated by a newline -/
 def render (ls : List Line) : List Char := Femio.Text.unlines (ls.map joinTokens)
 
+/-- a writer that converts its rows to text BLOCK BY BLOCK (`cs` = any cut of the lines of the file into consecutive
+    chunks, e.g. 65536 rows each) and terminates every row of every chunk with a newline -/
+def renderChunks (cs : List (List Line)) : List Char := cs.flatMap render
+
+/-- the unsound block-wise writer (seeded change C10-8): the rows of a chunk joined by newlines, ONE newline after the
+    last chunk – the last row of a chunk and the first row of the next end up on one line -/
+def renderChunksJoined (cs : List (List Line)) : List Char :=
+  (cs.flatMap fun c => List.intercalate ['\n'] (c.map joinTokens)) ++ ['\n']
+
 def isV : Line → Option (List Token)
   | ['v'] :: c => some c
   | _ => none
